@@ -97,9 +97,12 @@ def fill_name(name, env):
     return name
 
 
-def subst(ast, env):
+def subst(ast, env, keep_fsum=False):
     """The harness's own macro expansion: replace loop placeholders by tokens.
-    `env` maps level (int) -> token (str).  fsum nodes become sum nodes."""
+    `env` maps level (int) -> token (str).  fsum nodes become sum nodes unless
+    keep_fsum (used by renderers that want to write the loop themselves)."""
+    if keep_fsum:
+        return _subst_keep(ast, env)
     op = ast[0]
     if op == "num":
         return ast
@@ -126,6 +129,26 @@ def subst(ast, env):
         return ["sum", sign, [subst(inner, {lv: t}) for t in toks]]
     if op == "sum":
         return ["sum", ast[1], [subst(t, env) for t in ast[2]]]
+    raise ValueError(op)
+
+
+def _subst_keep(ast, env):
+    op = ast[0]
+    if op == "fsum":
+        _, sign, lv, toks, term = ast
+        return ["fsum", sign, lv, list(toks), _subst_keep(term, {k: v for k, v in env.items() if k != lv})]
+    if op in ("num", "var", "ctl", "tab"):
+        return subst(ast, env)
+    if op == "neg":
+        return ["neg", _subst_keep(ast[1], env)]
+    if op in BINOPS:
+        return [op, _subst_keep(ast[1], env), _subst_keep(ast[2], env)]
+    if op == "fn":
+        return ["fn", ast[1], _subst_keep(ast[2], env)]
+    if op == "pf":
+        return ["pf", ast[1], _subst_keep(ast[2], env), ast[3]]
+    if op == "sum":
+        return ["sum", ast[1], [_subst_keep(t, env) for t in ast[2]]]
     raise ValueError(op)
 
 
